@@ -527,6 +527,7 @@ def alloc_config(reuse):
 
     mods = None
     contract = {'post': post, 'merge_ifs': True,
+                'loop_match': {0: ('s_nodes', 0), 1: ('zip(', 0), 2: ('self.ops[', 0), 3: ('free_set', 0), 4: ('enumerate(stems)', 0), 5: ('s_nodes', 1)},
                 'loops': {0: {'inv': pins_inv, 'kinds': {'n': 'keep', 'i0_idx': 'int'}},
                           1: {'inv': outer_inv, 'kinds': {'op': 'keep'}},
                           2: {'inv': inner_inv, 'assume': inner_assume, 'kinds': {'op': 'keep'}},
